@@ -62,11 +62,27 @@ impl Entropy {
     }
 }
 
+/// A degenerate stream is a *fault*, and faults stop: once one sampling call has drawn this many words
+/// from a faulty stream, the rest of that call is served from a fair stream. Without this a sampler that
+/// uses rejection (rand's own `sample_single` does) spins forever on a stuck source and the simulator with
+/// it; with it the liveness statement "once the fault stops, the call returns within a bounded number of
+/// words" becomes checkable.
+pub const HEAL_AFTER_WORDS: u64 = 2048;
+/// ... and this is the bound: no sampling call may draw this many words (a rejection loop on a fair stream
+/// passing it has probability ~ 0).
+pub const LIVENESS_BOUND_WORDS: u64 = 2_000_000;
+pub const NO_PROGRESS_MARKER: &str = "palsim: the sampler drew more than the liveness bound of entropy words in one call";
+
 pub struct SimRng {
     mode: Entropy,
     prng: Prng,
+    heal: Prng,
     calls: u64,
     pub words_drawn: u64,
+    /// words drawn since the last `mark()` (= within the current sampling call)
+    since_mark: u64,
+    /// how many sampling calls had their faulty stream healed
+    pub healed_calls: u64,
 }
 
 impl SimRng {
@@ -75,13 +91,28 @@ impl SimRng {
             Entropy::Fair { seed } | Entropy::LowEntropy { seed, .. } => *seed,
             _ => 0,
         };
-        SimRng { mode: mode.clone(), prng: Prng::new(seed), calls: 0, words_drawn: 0 }
+        SimRng { mode: mode.clone(), prng: Prng::new(seed), heal: Prng::new(seed ^ 0x4845_414c), calls: 0, words_drawn: 0, since_mark: 0, healed_calls: 0 }
+    }
+
+    /// Start of one sampling call.
+    pub fn mark(&mut self) {
+        self.since_mark = 0;
     }
 
     fn word(&mut self) -> u64 {
         let n = self.calls;
         self.calls += 1;
         self.words_drawn += 1;
+        self.since_mark += 1;
+        if self.since_mark > LIVENESS_BOUND_WORDS {
+            panic!("{}", NO_PROGRESS_MARKER);
+        }
+        if self.since_mark > HEAL_AFTER_WORDS && !self.mode.is_fair() {
+            if self.since_mark == HEAL_AFTER_WORDS + 1 {
+                self.healed_calls += 1;
+            }
+            return self.heal.next_u64();
+        }
         match &self.mode {
             Entropy::Fair { .. } => self.prng.next_u64(),
             Entropy::StuckLo => 0,
